@@ -469,6 +469,10 @@ func (e *Env) combine(a, b []Case, f func(x, y Rat) Rat) []Case {
 
 func (e *Env) cases(t *sym.Term) []Case {
 	one := func(r Rat) []Case { return []Case{{nil, r}} }
+	if n, ok := e.Rename[t.Key()]; ok && t.Op != "const" {
+		e.Atoms[n] = t
+		return one(RatVar(n))
+	}
 	switch t.Op {
 	case "const":
 		if t.C != nil {
